@@ -25,7 +25,7 @@ RULE = ("ints: 0, +-(10^k-2..10^k+2) for k=0..18, int64 extremes, every permutat
         "digits (floats)")
 EXHAUSTIVE = {"quick": False, "thorough": False}
 MODEL_OPS = {"fmt", "parse", "parse1", "intlists", "splitparse", "fparse", "column_ints", "parse_missing", "froundtrip",
-             "int_to_str", "join", "split", "boollists", "fparse_missing", "reject"}
+             "int_to_str", "join", "split", "boollists", "fparse_missing", "reject", "frepr"}
 PARALLEL = 0
 ASSUMPTIONS = [
     "int64 arithmetic is modelled as unbounded Int with wrap64 applied to the result (NumPy ops are ring homomorphisms mod 2^64)",
@@ -937,7 +937,8 @@ def agree_spec(c, s, exp):
 
 def model_request(c):
     if c["op"] == "froundtrip":
-        return {"op": "fparse", "rows": [repr(float.fromhex(h)) for h in c["xs"]]}
+        # the Lean side checks the repr SHAPE of the text (reprGrammar) and then applies the parser's logic
+        return {"op": "frepr", "rows": [repr(float.fromhex(h)) for h in c["xs"]]}
     if c["op"] == "int_to_str":
         return {"op": "fmt", "ns": [c["n"]]}
     if c["op"] == "reject":
